@@ -49,6 +49,11 @@ type c12Finite struct {
 	Total  []int `json:"total"`  // per vBucket: events the server holds when the finite session opens
 	Late   []int `json:"late"`   // per vBucket: events written after the open (beyond the sampled end)
 	Order  []int `json:"order"`  // interleaving seed
+	// AckAll: the consumer acknowledges every event of the finite session at once (the settled position reaches the
+	// sampled end). TransientAtEnd[v] > 0: when vBucket v has delivered everything up to its sampled end, its stream
+	// first ends that many times with a transient cause (and must be requested again) before the clean end arrives.
+	AckAll         bool  `json:"ack_all,omitempty"`
+	TransientAtEnd []int `json:"transient_at_end,omitempty"`
 }
 
 func c12ExecFinite(sc c12Finite) string {
@@ -96,6 +101,7 @@ func c12ExecFinite(sc c12Finite) string {
 		m := s.vbOf(v)
 		remaining[m.vb] = len(s.srv[m.vb].hist) - m.sentIdx
 	}
+	transient := append([]int(nil), sc.TransientAtEnd...)
 	ended := 0
 	for step := 0; ended < sc.NVb && step < 100000; step++ {
 		v := sc.Order[step%len(sc.Order)] % sc.NVb
@@ -112,9 +118,27 @@ func c12ExecFinite(sc c12Finite) string {
 		if remaining[m.vb] > 0 {
 			s.deliver(hOp{Op: "deliver", Vb: int(m.vb) - s.lo, Snap: 4})
 			remaining[m.vb]--
+			if sc.AckAll {
+				s.ack(hOp{Op: "ack", Vb: int(m.vb) - s.lo, N: 8})
+			}
 			if s.viol != nil {
 				return s.viol.Detail
 			}
+			continue
+		}
+		if k := int(m.vb) - s.lo; k < len(transient) && transient[k] > 0 {
+			// everything up to the sampled end was sent, but the stream ends with a transient cause instead of cleanly:
+			// the vBucket has not ended for good, it must be requested again (from its settled position)
+			transient[k]--
+			s.step = step
+			s.end(hOp{Op: "end", Vb: k, Kind: []string{"state", "socket", "slow"}[transient[k]%3]})
+			if s.viol != nil {
+				return s.viol.Detail
+			}
+			if stopChClosed(s.stopCh) {
+				return fmt.Sprintf("vb %d: the client stopped after a transient stream end at the sampled end", m.vb)
+			}
+			remaining[m.vb] = len(s.srv[m.vb].hist) - m.sentIdx
 			continue
 		}
 		// the sampled end is reached: the server closes the stream cleanly
@@ -140,8 +164,12 @@ func c12ExecFinite(sc c12Finite) string {
 				want++
 			}
 		}
-		if len(m.docs) != want {
-			return fmt.Sprintf("vb %d: %d events delivered before the stop, %d lie between the checkpoint %d and the sampled end %d", m.vb, len(m.docs), want, m.resume.Seq, high[m.vb])
+		got := map[uint64]bool{} // (after a transient end the unacknowledged events are delivered again: count events, not deliveries)
+		for _, d := range m.docs {
+			got[d.ev.Seq] = true
+		}
+		if len(got) != want {
+			return fmt.Sprintf("vb %d: %d events delivered before the stop, %d lie between the checkpoint %d and the sampled end %d", m.vb, len(got), want, m.resume.Seq, high[m.vb])
 		}
 	}
 	return ""
@@ -158,6 +186,15 @@ func TestC12_Finite(t *testing.T) {
 			atEnd = atEnd || st == tot
 		}
 		sc.Order = rapid.SliceOfN(rapid.IntRange(0, 5), 1, 12).Draw(rt, "order")
+		sc.AckAll = rapid.Bool().Draw(rt, "ackall")
+		trans := false
+		if rapid.Bool().Draw(rt, "transients") {
+			for v := 0; v < sc.NVb; v++ {
+				k := rapid.SampledFrom([]int{0, 0, 1, 2}).Draw(rt, "transient")
+				sc.TransientAtEnd = append(sc.TransientAtEnd, k)
+				trans = trans || k > 0
+			}
+		}
 		if d := c12ExecFinite(sc); d != "" {
 			violation(rt, "C12", "c12finite", sc, "%s", d)
 		}
@@ -165,7 +202,11 @@ func TestC12_Finite(t *testing.T) {
 		if atEnd {
 			lab = "finite_with_vb_already_at_end"
 		}
-		record("C12", sc, sc.NVb >= 2, lab, "finite_cases")
+		labs := []string{lab, "finite_cases"}
+		if trans {
+			labs = append(labs, "finite_transient_end_at_sampled_end")
+		}
+		record("C12", sc, sc.NVb >= 2, labs...)
 	})
 }
 
